@@ -309,6 +309,25 @@ def merge_assignment(
                 yield simplify_add(ig.SumNode(name, list(merged_terms)))
 
 
+def target_order_supported(
+    target: ig.IterationGraph, output_layers: dict[str, TensorLayer]
+) -> bool:
+    """Whether the output builder can append the output layers in this iteration order.
+
+    Output layers must be visited in storage order until only dense layers remain; the remaining
+    dense layers can be visited in any order because they are written through a bucket.
+    """
+    next_layer = 0
+    node = target
+    while isinstance(node, ig.IterationNode):
+        layer = output_layers[node.index_variable]
+        if layer.layer != next_layer:
+            return all(mode == Mode.dense for mode in layer.tensor.modes[next_layer:])
+        next_layer += 1
+        node = node.next
+    return True
+
+
 def to_iteration_graphs(
     assignment: ast.Assignment, formats: dict[str, Format]
 ) -> Iterator[ig.IterationGraph]:
@@ -327,6 +346,10 @@ def to_iteration_graphs(
     }
 
     for target_graph in to_iteration_graphs_expression(assignment.target, formats, []):
+        if not target_order_supported(target_graph, output_layers):
+            # The output builder cannot store a compressed layer after a later output layer
+            continue
+
         for expression_graph in to_iteration_graphs_expression(
             assignment.expression, formats, count(1)
         ):
